@@ -369,7 +369,7 @@ def _matchingString(constantString, inputString):
         otherType = constantString.decode("ascii")
     else:
         otherType = constantString.encode("ascii")
-    if type(constantString) == type(inputString):
+    if isinstance(inputString, type(constantString)):
         return constantString
     else:
         return otherType
